@@ -18,6 +18,51 @@ import (
 // the operation returned, the fault then clears and the tree is persisted: the persisted
 // version must still satisfy the shape invariants (in particular the recorded size).
 func c09FaultHistories(run *report.Run) {
+	faultHistories(run, "C09", func(cfg *world.Config, w *world.World, t *mast.Mast, root *mast.Root) (string, string) {
+		sn, err := codecFor(cfg).Walk(cfg.KS, storeGet(w.Store), linkOf(root), nil)
+		if err != nil {
+			return "", ""
+		}
+		if bad := ref.CheckShape(cfg.KS, sn, cfg.BF, int(root.Height), root.Size); len(bad) > 0 {
+			return bad[0][:strings.Index(bad[0], ":")], strings.Join(bad, "; ")
+		}
+		return "", ""
+	}, "breaks shape invariant")
+}
+
+// c04FaultHistories: the same histories judged by the canonical-form oracle: whatever a faulted operation
+// returned, the root persisted afterwards is the canonical root of the entries the tree then holds.
+func c04FaultHistories(run *report.Run) {
+	faultHistories(run, "C04", func(cfg *world.Config, w *world.World, t *mast.Mast, root *mast.Root) (string, string) {
+		c := w.ReadContents(t)
+		if c.Bad != "" {
+			return "", ""
+		}
+		es := entriesOf(cfg, c)
+		H := ref.CanonHeight(cfg.KS, es, cfg.BF)
+		want, err := codecFor(cfg).Encode(ref.BuildCanon(cfg.KS, es, cfg.BF, H), nil)
+		if err != nil {
+			return "", ""
+		}
+		var diffs []string
+		if int(root.Height) != H {
+			diffs = append(diffs, "height")
+		}
+		if root.Size != uint64(len(es)) {
+			diffs = append(diffs, "size")
+		}
+		if linkOf(root) != want {
+			diffs = append(diffs, "link")
+		}
+		if len(diffs) == 0 {
+			return "", ""
+		}
+		return strings.Join(diffs, "+"), fmt.Sprintf("contents %v: got Link=%q Height=%d Size=%d, canonical Link=%q Height=%d Size=%d", c, linkOf(root), root.Height, root.Size, want, H, len(es))
+	}, "is not the canonical root of the tree's entries:")
+}
+
+// faultHistories: see above. judge returns (clause, detail) for a persisted root, "" if it is fine.
+func faultHistories(run *report.Run, check string, judge func(cfg *world.Config, w *world.World, t *mast.Mast, root *mast.Root) (string, string), what string) {
 	B, M := ref.FormatBinary, ref.FormatMarshaler
 	cc := func(c *world.Config) *world.Config { c.CustomCompare = true; c.Name += "/countingcompare"; return c }
 	cfgs := []*world.Config{world.UintCfg(2, urange(1, 5), 1, B, "none"), world.UintCfg(4, ulist(1, 2, 3, 4, 5, 8), 1, M, "none"), world.LKeyCfg(2, []uint8{0, 2, 0, 1, 0}, 1, B, "none"),
@@ -29,7 +74,7 @@ func c09FaultHistories(run *report.Run) {
 	acc := &pairAcc{}
 	var evals, failed int64
 	for _, cfg := range cfgs {
-		hists := closureStatesBounded(run, "C09", cfg)
+		hists := closureStatesBounded(run, check, cfg)
 		parallelFor(len(hists), func(hi int) {
 			hist := hists[hi]
 			for k := range cfg.Keys {
@@ -97,19 +142,24 @@ func c09FaultHistories(run *report.Run) {
 						if r.Err != nil {
 							atomic.AddInt64(&failed, 1)
 						}
-						var root *mast.Root
-						rr := guardRes(func() (err error) { root, err = t.MakeRoot(ctx); return })
-						if rr.Err != nil || rr.Panic != nil {
-							continue // judged by C03/C12
-						}
-						sn, err := codecFor(cfg).Walk(cfg.KS, storeGet(w.Store), linkOf(root), nil)
-						if err != nil {
-							continue
-						}
-						if bad := ref.CheckShape(cfg.KS, sn, cfg.BF, int(root.Height), root.Size); len(bad) > 0 {
-							clause := bad[0][:strings.Index(bad[0], ":")]
-							acc.add(cfg, "C09", []explore.Finding{{Sig: "C09|after-failed-" + kind + "|" + clause, What: "a version persisted after an operation failed on a store fault breaks shape invariant '" + clause + "'", Detail: strings.Join(bad, "; ")}},
-								append(cfg.DescribeHist(hist), fmt.Sprintf("%s(%v) with its %s #%d failing -> %v; then MakeRoot", kind, cfg.Keys[k], f.kind, i, r)))
+						// persisted right away, and again after the same operation was retried with the fault gone
+						for _, step := range []string{"then MakeRoot", "then the same call again, then MakeRoot"} {
+							if step != "then MakeRoot" {
+								if r.Err == nil {
+									break // the faulted call had succeeded: nothing to retry
+								}
+								guardRes(func() error { return do(t) })
+							}
+							var root *mast.Root
+							rr := guardRes(func() (err error) { root, err = t.MakeRoot(ctx); return })
+							if rr.Err != nil || rr.Panic != nil {
+								break // judged by C03/C12
+							}
+							if clause, detail := judge(cfg, w, t, root); clause != "" {
+								acc.add(cfg, check, []explore.Finding{{Sig: check + "|after-failed-" + kind + "|" + clause, What: "a version persisted after an operation failed on an injected fault " + what + " '" + clause + "'", Detail: detail}},
+									append(cfg.DescribeHist(hist), fmt.Sprintf("%s(%v) with its %s #%d failing -> %v; %s", kind, cfg.Keys[k], f.kind, i, r, step)))
+								break
+							}
 						}
 					}
 				}
